@@ -429,7 +429,7 @@ def run(ctx):
         if res["sample"] is not None and kind not in {s.get("kind") for s in ctx.samples}:
             ctx.sample(dict(res["sample"], kind=kind), cap=8)
     transitions = sum(tot.values())
-    subsets = len({o for o in ctx.outcomes if len(o) == 4 and o[1] == "vertex-subset"})
+    subsets = len({o for o in ctx.outcomes if len(o) == 4 and o[1] == "vertex-subset" and o[2] != "copy"})
     ctx.cover(
         states=states,
         transitions=transitions,
@@ -441,8 +441,8 @@ def run(ctx):
         executions_per_kind={k: v["executions"] for k, v in per_kind.items()},
         cpu_seconds_per_kind={k: round(v["cpu"], 1) for k, v in per_kind.items()},
         cell_object_vertex_subsets_reached=subsets,
-        curve_pattern_x_vertex_subset_pairs_reached=f"{len({o for o in ctx.outcomes if len(o) == 4 and o[1] == 'vertex-subset' and o[0] == 'Curve'})} of {6 * 15}",
-        surface_pattern_x_vertex_subset_pairs_reached=f"{len({o for o in ctx.outcomes if len(o) == 4 and o[1] == 'vertex-subset' and o[0] == 'Surface'})} of {4 * 31}",
+        curve_pattern_x_vertex_subset_pairs_reached=f"{len({o for o in ctx.outcomes if len(o) == 4 and o[1] == 'vertex-subset' and o[0] == 'Curve' and o[2] != 'copy'})} of {6 * 15}",
+        surface_pattern_x_vertex_subset_pairs_reached=f"{len({o for o in ctx.outcomes if len(o) == 4 and o[1] == 'vertex-subset' and o[0] == 'Surface' and o[2] != 'copy'})} of {4 * 31}",
         alphabet=["mask_by_extent(ext, inverse)", "copy_from_extent(ext, inverse)", "data.mask_by_extent", "data.copy_from_extent",
                   "copy_from_extent on the first-level copy"],
         bound=(
